@@ -243,6 +243,16 @@ func c06Run(c *Ctx) {
 			}
 		}
 	}
+	// narrow and deep: all trees with N+1 .. N+2 leaves over two atoms
+	deep := TreesUpTo(N+2, len(c01Atoms2))
+	c.Bound("S1-deep", map[string]any{"atoms": c01Atoms2, "leaves": []int{N + 1, N + 2}})
+	for n := N + 1; n <= N+2; n++ {
+		for _, t := range deep[n] {
+			if !treeCase(t, c01Atoms2) {
+				return
+			}
+		}
+	}
 	c.Bound("S2", map[string]any{"terms": c06Rich, "max_leaves": 3})
 	rich := TreesUpTo(3, len(c06Rich))
 	for n := 1; n <= 3; n++ {
